@@ -256,14 +256,15 @@ class InternalError(Exception):
 
 # ------------------------------------------------------------------ frames / threads / state
 class Frame:
-    __slots__ = ('kind', 'fn', 'loc', 'bb', 'k', 'data')
+    __slots__ = ('kind', 'fn', 'loc', 'bb', 'k', 'data', 'skip')
     # kind 'mir': fn (Fn), loc (dict local->root), bb (current block; its terminator is "in progress" when a callee is above)
     # kind 'k'  : k = continuation name (method of Machine: k_<name>), data = tuple
 
-    def __init__(s, kind, fn=None, loc=None, bb=None, k=None, data=None):
+    def __init__(s, kind, fn=None, loc=None, bb=None, k=None, data=None, skip=0):
         s.kind = kind; s.fn = fn; s.loc = loc; s.bb = bb; s.k = k; s.data = data
+        s.skip = skip      # 1 = the block's statements were executed already; only its terminator is pending (thread was preempted / blocked before a call)
 
-    def copy(s): return Frame(s.kind, s.fn, s.loc, s.bb, s.k, s.data)
+    def copy(s): return Frame(s.kind, s.fn, s.loc, s.bb, s.k, s.data, s.skip)
 
 
 class Thread:
@@ -351,6 +352,7 @@ class Machine:
         s.solver_timeout_ms = 20000        # a query that does not finish is `unknown` = inconclusive, never a pass
         s.overflow_mode = 'panic'          # 'panic' (dev profile) | 'wrap' (release profile)
         s.task_mode = True                 # ignore preemption points
+        s.fine_points = False              # thread mode: additionally preempt before every access to shared state (lock, atomic, semaphore)
         s.record_queries = False
 
     # ---------------- solver
@@ -654,6 +656,8 @@ class Machine:
             return getattr(s, 'k_' + fr.k)(st, th, fr, 'start', None)
         f = fr.fn; stmts, term = blocks_of(f)[fr.bb]
         s.stats.blocks += 1; s.stats.stmts += len(stmts) + 1
+        if fr.skip: stmts = ()
+        pending_skip = fr.skip
         for sm in stmts:
             k = sm[0]
             if k == 'assign':
@@ -741,6 +745,12 @@ class Machine:
     # ---------------- calls
     def do_call(s, st, th, fr, term):
         _, dest, callee, argops, ret, unw = term
+        if s.fine_points and not s.task_mode:
+            if fr.skip:
+                fr.skip = 0
+            elif s.env.is_shared_access(callee):
+                fr.skip = 1; th.at_point = 'sync:' + model_key(callee)[-40:]
+                return [(st, 'stop')]
         args = [s.operand(st, fr, a) for a in argops]
         if callee.startswith(('move ', 'copy ')):
             # indirect call through a fn pointer / closure value held in a local
@@ -784,9 +794,12 @@ class Machine:
                     for st3, flag in (r if r is not None else [(st2, None)]):
                         res.append((st3, 'stop' if flag is None else flag))
             elif kind == 'block':
-                if o[2] != 'self-deadlock':
+                if o[2] == 'self-deadlock':
+                    th2.stack.clear(); th2.result = ('deadlock',); res.append((st2, 'stop')); continue
+                if not s.fine_points:
                     raise InternalError('thread blocks on a lock held by another thread: schedule points must lie outside lock regions')
-                th2.stack.clear(); th2.result = ('deadlock',); res.append((st2, 'stop'))
+                # retry the lock call when the thread is scheduled again (its operands are references: re-evaluation is harmless)
+                th2.stack[-1].skip = 1; th2.at_point = ('blocked', o[3] if len(o) > 3 else None); res.append((st2, 'stop'))
             else:
                 raise InternalError('outcome ' + kind)
         return res
